@@ -2,5 +2,5 @@ SPECIFICATION Spec
 CONSTANTS MaxB = 3
  MaxSize = 6
  MaxDis = 4
-INVARIANTS PiecesPartitionWindow GetsizeIsOverlap ReshuffleWholeTiles
+INVARIANTS PiecesPartitionWindow GetsizeIsOverlap ReshuffleWholeTiles PlacementIsExact
 CHECK_DEADLOCK FALSE
